@@ -15,7 +15,7 @@ pub proof fn lemma_emit_opcode_inv(pre: Compiler, post: Compiler, op: OpCode)
     ensures gen_inv(post)
 {}
 pub proof fn lemma_emit_operand_inv(pre: Compiler, post: Compiler, extra: Seq<u8>)
-    requires gen_inv(pre), pre.last_instruction != Some(OpCode::Pop), post.instructions@ == pre.instructions@ + extra, post.last_instruction == pre.last_instruction, same_but_code(pre, post)
+    requires gen_inv(pre), !(pre.last_instruction is Some && no_operand_tail(pre.last_instruction->Some_0)), post.instructions@ == pre.instructions@ + extra, post.last_instruction == pre.last_instruction, same_but_code(pre, post)
     ensures gen_inv(post)
 {}
 
@@ -34,27 +34,40 @@ fn to_u8(value: usize) -> (r: Result<u8, Error>)
 //@BODY file=compiler.rs fn=to_u8 sig="fn to_u8(value: usize) -> Result<u8, Error>" rules="R1;R3[u8::MAX as usize=>0xFFusize]"
 }
 
-/// the sub-trees of an `als` are compiled in source order, the condition first, each exactly once, back to back
-/// (3 bytes of JumpIfFalse between condition and consequence)
+/// number of ghost-log entries a block contributes (one per statement; an empty block is a bare Null)
+pub open spec fn blen(b: Seq<Stmt>) -> int { b.len() as int }
+/// the statements of block `b` are the log entries [from, from + |b|), in order, back to back, starting at code offset `start`
+pub open spec fn block_logged(log: Seq<LogEntry>, from: int, b: Seq<Stmt>, start: int) -> bool {
+    &&& (forall|j: int| 0 <= j < b.len() ==> #[trigger] log[from + j].what == LogWhat::S(b[j]))
+    &&& (b.len() > 0 ==> log[from].start == start)
+    &&& (forall|j: int| 0 <= j < b.len() - 1 ==> #[trigger] log[from + j].end == log[from + j + 1].start)
+}
+/// code offset at which block `b` (logged from `from`, emitted from `start`) ends - before any peephole
+pub open spec fn block_end(log: Seq<LogEntry>, from: int, b: Seq<Stmt>, start: int) -> int {
+    if b.len() == 0 { start + 1 } else { log[from + b.len() - 1].end }
+}
+/// the sub-trees of an `als` are compiled in source order, the condition first, each exactly once:
+/// condition, 3 bytes of JumpIfFalse, the consequence's statements, [the alternative's statements]
 pub open spec fn if_log(pre: Compiler, post: Compiler, condition: Expr, consequence: Seq<Stmt>, alternative: Option<Vec<Stmt>>) -> bool {
     let k = pre.log@.len() as int;
-    &&& post.log@.len() == k + (if alternative is Some { 3int } else { 2int })
+    let alt = if alternative is Some { alternative->Some_0@ } else { Seq::<Stmt>::empty() };
+    &&& post.log@.len() == k + 1 + blen(consequence) + blen(alt)
     &&& post.log@[k].what == LogWhat::E(condition) && post.log@[k].start == pre.instructions@.len()
-    &&& post.log@[k + 1].what == LogWhat::B(consequence) && post.log@[k + 1].start == post.log@[k].end + 3
-    &&& (alternative is Some ==> post.log@[k + 2].what == LogWhat::B(alternative->Some_0@))
+    &&& block_logged(post.log@, k + 1, consequence, post.log@[k].end + 3)
 }
 /// the two jumps of an `als` and their patched operands
-pub open spec fn if_jumps(pre: Compiler, post: Compiler, alternative: Option<Vec<Stmt>>) -> bool {
+pub open spec fn if_jumps(pre: Compiler, post: Compiler, consequence: Seq<Stmt>, alternative: Option<Vec<Stmt>>) -> bool {
     let k = pre.log@.len() as int;
     let code = post.instructions@;
     let pjif = post.log@[k].end;          // JumpIfFalse right after the condition code
-    let cons_end = post.log@[k + 1].end;  // end of the consequence block as emitted
+    let cons_end = block_end(post.log@, k + 1, consequence, pjif + 3);
+    let alt = if alternative is Some { alternative->Some_0@ } else { Seq::<Stmt>::empty() };
     &&& 0 <= pjif && pjif + 3 <= code.len() && code[pjif] == byte_jif()
     &&& exists|pj: int| #![trigger code[pj]] (pj == cons_end || pj == cons_end - 1) && pjif + 3 <= pj && pj + 3 <= code.len()
             && code[pj] == byte_jump()
             && u16_at(code, pjif + 1) == pj + 3
             && u16_at(code, pj + 1) == code.len()
-            && (alternative is Some ==> post.log@[k + 2].start == pj + 3)
+            && (alternative is Some ==> block_logged(post.log@, k + 1 + blen(consequence), alt, pj + 3))
             && (alternative is None ==> code.len() == pj + 4 && code[pj + 3] == opcode_byte(OpCode::Null))
 }
 
@@ -120,8 +133,8 @@ impl Compiler {
         Ok(())
     }
 
-    /// O11.1  Expr::If. Positions are read off the ghost log: entry k is the condition, k+1 the consequence
-    /// block, k+2 (if any) the alternative block. After the arm:
+    /// O11.1  Expr::If. Positions are read off the ghost log: entry k is the condition, then one entry per statement
+    /// of the consequence, then one per statement of the alternative (if any). After the arm:
     ///  * a JumpIfFalse sits right after the condition code and its operand is the first byte AFTER the Jump that
     ///    ends the consequence, i.e. the start of the alternative (or of the Null that stands for a missing one);
     ///  * that Jump's operand is the end of the whole expression;
@@ -133,14 +146,30 @@ impl Compiler {
             is_prefix(old(self).instructions@, final(self).instructions@),
             final(self).loop_contexts@.len() == old(self).loop_contexts@.len(),
             r is Ok ==> if_log(*old(self), *final(self), **condition, consequence@, *alternative),
-            r is Ok ==> if_jumps(*old(self), *final(self), *alternative),
+            r is Ok ==> if_jumps(*old(self), *final(self), consequence@, *alternative),
             r is Ok ==> final(self).instructions@.len() <= 0xFFFF,
     {
+//@GHOST after="self.compile_expression(condition)?;" let ghost s_cond = *self;
+//@GHOST after="self.compile_block_statement(consequence)?;" let ghost s_cons = *self;
+//@GHOST after="self.change_jump_operand_at(pos_jump_if_false, to_u16(self.instructions.len())?);" let ghost s_mid = *self;
 //@ARM file=compiler.rs fn=compile_expression impl=Compiler arm="Expr::If" rules="R1;R4"
         proof {
-            // ghost hint only (erased): the witness for the Jump position is the arm's own local `pos_jump`
+            // ghost hints only (erased): the witness for the Jump position is the arm's own local `pos_jump`; the
+            // log entries of the consequence are unchanged by what is emitted after it
             let code = self.instructions@;
             let pj = pos_jump as int;
+            let k = old(self).log@.len() as int;
+            let m = blen(consequence@);
+            assert(s_cond.log@.len() == k + 1 && s_cond.log@[k].what == LogWhat::E(**condition));
+            assert(s_cons.log@.len() == k + 1 + m);
+            assert(s_mid.log@ == s_cons.log@);
+            assert forall|i: int| 0 <= i < k + 1 + m implies self.log@[i] == s_cons.log@[i] by {}
+            assert forall|i: int| 0 <= i < k + 1 implies s_cons.log@[i] == s_cond.log@[i] by {}
+            assert(block_logged(self.log@, k + 1, consequence@, pos_jump_if_false as int + 3)) by {
+                assert forall|j: int| 0 <= j < m implies #[trigger] self.log@[k + 1 + j].what == LogWhat::S(consequence@[j]) by { assert(s_cons.log@[(k + 1) + j].what == LogWhat::S(consequence@[j])); }
+                assert forall|j: int| 0 <= j < m - 1 implies #[trigger] self.log@[k + 1 + j].end == self.log@[k + 1 + j + 1].start by { assert(s_cons.log@[(k + 1) + j].end == s_cons.log@[(k + 1) + j + 1].start); }
+            }
+            assert(pj == block_end(self.log@, k + 1, consequence@, pos_jump_if_false as int + 3) || pj == block_end(self.log@, k + 1, consequence@, pos_jump_if_false as int + 3) - 1);
             assert(code[pj] == byte_jump());
             assert(u16_at(code, pos_jump_if_false as int + 1) == pj + 3);
             assert(u16_at(code, pj + 1) == code.len());
@@ -171,15 +200,15 @@ impl Compiler {
 //@LOOP 1 invariant __v@ == stops, n0 == old(self).instructions@.len(), while_log(*old(self), log_after_body, pc, **condition, body@), self.instructions@.len() == len_final, len_final <= 0xFFFF, same_loops(*self, *old(self)), self.log@ == log_after_body, self.last_instruction == Some(OpCode::Jump), is_prefix(old(self).instructions@, self.instructions@), n0 < pc, pc + 4 <= len_final - 3, self.instructions@[n0] == opcode_byte(OpCode::Null), self.instructions@[pc] == byte_jif(), u16_at(self.instructions@, pc + 1) == len_final, self.instructions@[pc + 3] == opcode_byte(OpCode::Pop), self.instructions@[len_final - 3] == byte_jump(), u16_at(self.instructions@, len_final - 2) == n0 + 1, forall|j: int| 0 <= j < stops.len() ==> stop_final(*self, n0, pc, len_final, #[trigger] stops[j] as int), forall|j: int, k: int| 0 <= j < k < stops.len() ==> #[trigger] stops[j] + 3 <= #[trigger] stops[k], forall|j: int| 0 <= j < __it.index@ ==> u16_at(self.instructions@, #[trigger] stops[j] as int + 1) == len_final,
 //@ARM file=compiler.rs fn=compile_expression impl=Compiler arm="Expr::While" rules="R1;R4;R13[ip in ctx.break_instructions]"
         proof {
-            self.log = Ghost(self.log@.push(LogEntry { what: LogWhat::Stops(stops), start: n0, end: len_final }));
+            self.log = Ghost(self.log@.push(LogEntry { what: LogWhat::Stops(stops), start: n0, end: len_final, depth: 0, contexts: 0 }));
             let k = old(self).log@.len() as int;
             let code = self.instructions@;
-            assert(self.log@.len() == k + 3);
-            assert(self.log@[k] == log_after_body[k] && self.log@[k + 1] == log_after_body[k + 1]);
+            assert(self.log@.len() == k + 2 + blen(body@));
+            assert forall|j: int| 0 <= j < k + 1 + blen(body@) implies self.log@[j] == log_after_body[j] by {}
             assert(self.log@[k].end == pc);
             assert(n0 + 1 < pc);
             assert(code[n0] == opcode_byte(OpCode::Null));
-            assert(self.log@[k + 2].what == LogWhat::Stops(stops));
+            assert(self.log@[k + 1 + blen(body@)].what == LogWhat::Stops(stops));
             assert forall|j: int| 0 <= j < stops.len() implies n0 + 1 <= #[trigger] stops[j] && stops[j] + 3 <= code.len() - 3 && code[stops[j] as int] == byte_jump() && u16_at(code, stops[j] as int + 1) == code.len() by {
                 assert(stop_final(*self, n0, pc, len_final, stops[j] as int));
             }
@@ -199,9 +228,9 @@ pub open spec fn stop_final(c: Compiler, n0: int, pc: int, len: int, p: int) -> 
 /// the ghost log right after the body: condition then body, compiled once each, in that order
 pub open spec fn while_log(pre: Compiler, log: Seq<LogEntry>, pc: int, condition: Expr, body: Seq<Stmt>) -> bool {
     let k = pre.log@.len() as int;
-    &&& log.len() == k + 2
+    &&& log.len() == k + 1 + blen(body)
     &&& log[k].what == LogWhat::E(condition) && log[k].start == pre.instructions@.len() + 1 && log[k].end == pc
-    &&& log[k + 1].what == LogWhat::B(body) && log[k + 1].start == pc + 4
+    &&& block_logged(log, k + 1, body, pc + 4)
 }
 /// see arm_while
 pub open spec fn while_post(pre: Compiler, post: Compiler, condition: Expr, body: Seq<Stmt>) -> bool {
@@ -209,16 +238,16 @@ pub open spec fn while_post(pre: Compiler, post: Compiler, condition: Expr, body
     let n0 = pre.instructions@.len() as int;
     let code = post.instructions@;
     let pc = post.log@[k].end;
-    &&& post.log@.len() == k + 3
+    &&& post.log@.len() == k + 2 + blen(body)
     &&& post.log@[k].what == LogWhat::E(condition) && post.log@[k].start == n0 + 1
-    &&& post.log@[k + 1].what == LogWhat::B(body) && post.log@[k + 1].start == pc + 4
+    &&& block_logged(post.log@, k + 1, body, pc + 4)
     &&& n0 + 1 < pc && pc + 4 <= code.len() - 3 && code.len() <= 0xFFFF
     &&& code[n0] == opcode_byte(OpCode::Null)
     &&& code[pc] == byte_jif() && u16_at(code, pc + 1) == code.len()
     &&& code[pc + 3] == opcode_byte(OpCode::Pop)
     &&& code[code.len() - 3] == byte_jump() && u16_at(code, code.len() - 2) == n0 + 1
     &&& same_loops(post, pre)
-    &&& (post.log@[k + 2].what matches LogWhat::Stops(stops) && forall|j: int| 0 <= j < stops.len() ==>
+    &&& (post.log@[k + 1 + blen(body)].what matches LogWhat::Stops(stops) && forall|j: int| 0 <= j < stops.len() ==>
             n0 + 1 <= #[trigger] stops[j] && stops[j] + 3 <= code.len() - 3 && code[stops[j] as int] == byte_jump() && u16_at(code, stops[j] as int + 1) == code.len())
 }
 
